@@ -17,6 +17,8 @@ import zlib
 from . import c01_lib as L
 from .c01_exec import diff_fields, impl_exc, mk_commit, mk_tag, rd_commit, rd_tag, set_attr
 
+ALGO_OF = {1: "sha1", 2: "sha256"}
+FMT_OF = {"sha1": 1, "sha256": 2}
 TREE_ENTRIES = [((45,), 16384), ((45, 48), 33188), ((45, 45), 33188)]     # "-" (dir), "-0", "--"
 BLOB_KEYS = ["", "1,2", "0,1,0"]
 CLS = {"commit": "Commit", "tag": "Tag", "tree": "Tree", "blob": "Blob"}
@@ -74,30 +76,29 @@ class Conc:
         self.by_bytes = {b: v for v, b in self.bytes.items()}
         if len(self.by_bytes) != len(self.bytes):
             raise RuntimeError(f"concretisation {self.name}: two valuations have the same bytes")
-        # a name is the SHA-1 of the content, or -- for an object that was given its name by a sha256
-        # repository (FixedSha) -- the SHA-256 of the content
-        self.by_sha1 = {L.H(a, kind, b).decode(): v for v, b in self.bytes.items() for a in {"sha1", self.algo}}
+        # hex name -> (valuation it is the hash of, format it is the hash in: 1 SHA-1, 2 SHA-256)
+        self.by_name = {L.H(a, kind, b).decode(): (v, FMT_OF[a]) for v, b in self.bytes.items() for a in L.ALGOS}
 
-    def fmt(self):
+    def fmt(self, algo=None):
         from dulwich.object_format import SHA1, SHA256
-        return SHA1 if self.algo == "sha1" else SHA256
+        return SHA1 if (algo or self.algo) == "sha1" else SHA256
 
 
 class Obj:
     """One live real object driven through abstract operations."""
 
-    def __init__(self, conc: Conc, origin: str, v, flavour: int = 0):
+    def __init__(self, conc: Conc, origin: str, v, flavour: int = 0, ofmt: int = 0):
         from dulwich import objects as O
         self.O = O
         self.c = conc
         self.kind = conc.kind
         self.cls = getattr(O, CLS[self.kind])
         self.n = flavour
-        self.o = self._make(origin, tuple(v))
+        self.o = self._make(origin, tuple(v), ofmt)
         self.tracked = tuple(v)       # model-free oracle: the valuation the setters were called with
 
     # -- construction
-    def _make(self, origin, v):
+    def _make(self, origin, v, ofmt=0):
         c, O = self.c, self.O
         b = c.bytes[v]
         num = L.TYPE_NUM[self.kind]
@@ -115,8 +116,11 @@ class Obj:
                 o.data = b
             o.object_format = c.fmt()
             return o
-        sha = L.H(c.algo, self.kind, b) if origin == "rawsha" else None
+        # the trusted name a sha1 (ofmt 1) / sha256 (ofmt 2) object store would hand over
+        sha = L.H(ALGO_OF[ofmt or FMT_OF[c.algo]], self.kind, b) if origin == "rawsha" else None
         k = self.n % 3
+        if sha is not None and len(sha) != c.fmt().hex_length:
+            k = k % 2                      # from_file refuses a name whose length is not the object format's
         if k == 0:
             o = O.ShaFile.from_raw_string(num, b, sha, object_format=c.fmt())
         elif k == 1:
@@ -182,25 +186,25 @@ class Obj:
             r = repr(o)
             m = re.search(r"b'([0-9a-f]+)'", r)
             return ("sha1", m.group(1).encode() if m else r.encode())
-        if op == "ReadId256":
-            from dulwich.object_format import SHA256
+        if op == "ReadIdF":
+            F = c.fmt(ALGO_OF[args[0]])
             if n % 2:
-                return ("sha256", o.get_id(SHA256))
-            return ("sha256", o.sha(SHA256).hexdigest().encode())
+                return ("name:" + ALGO_OF[args[0]], o.get_id(F))
+            return ("name:" + ALGO_OF[args[0]], o.sha(F).hexdigest().encode())
         if op in ("SetRaw", "SetChunked"):
             v = tuple(args[0])
             b = c.bytes[v]
             if op == "SetChunked":
                 o.chunked = list(c.F[v])
             else:
-                sha = L.H(c.algo, self.kind, b) if args[1] else None
+                sha = L.H(ALGO_OF[args[1]], self.kind, b) if args[1] else None
                 k = n % 3
                 if self.kind == "blob" and not args[1] and k == 0:
                     o.data = b
                 elif k == 1:
                     o.set_raw_chunks([b[:3], b[3:]], sha)
-                elif k == 2 and args[1]:
-                    o.set_raw_string(b, verify_sha=sha)
+                elif k == 2 and args[1] and ALGO_OF[args[1]] == c.algo:
+                    o.set_raw_string(b, verify_sha=sha)     # verified against the object's own format
                 else:
                     o.set_raw_string(b, sha)
             self.tracked = v
@@ -220,15 +224,20 @@ class Obj:
             except O.ChecksumMismatch:
                 # ShaFile.check() recomputes with SHA-1 and so rejects every object that carries its
                 # SHA-256 name; reported as an observation, outside the statement of C01
-                if not (c.algo == "sha256" and self._had_fixed256):
+                if not self._had_fixed256:
                     raise
             return ("bytes", b"".join(o._chunked_text))
         if op == "Reload":
             data = o.as_legacy_object()
             want = None
             if args[0]:
-                want = o.get_id(c.fmt())
-            o2 = O.ShaFile.from_file(io.BytesIO(data), want, object_format=c.fmt())
+                want = o.get_id(c.fmt(ALGO_OF[args[0]]))
+            if want is not None and len(want) != c.fmt().hex_length:
+                # (from_file refuses a name whose length is not the object format's)
+                o2 = O.ShaFile.from_file(io.BytesIO(data), None, object_format=c.fmt())
+                o2.set_raw_chunks(o2._chunked_text, want)
+            else:
+                o2 = O.ShaFile.from_file(io.BytesIO(data), want, object_format=c.fmt())
             if type(o2) is not type(o):
                 return ("bytes", b"<type " + type(o2).__name__.encode() + b">")
             self.o = o2
@@ -261,10 +270,11 @@ class Obj:
             fields = text
         s = o._sha
         if s is None:
-            sha = ("none", None)
+            sha = ("none", None, 0)
         else:
             k = "fixed" if isinstance(s, self.O.FixedSha) else "computed"
-            sha = (k, c.by_sha1.get(s.hexdigest(), "other"))
+            v, f = c.by_name.get(s.hexdigest(), ("other", 0))
+            sha = (k, v, f)
         return {"fields": fields, "dirty": bool(o._needs_serialization), "text": text, "sha": sha}
 
 
@@ -278,11 +288,11 @@ def parse_label(lab):
         f, x = a.split(",")
         return op, (int(f), int(x))
     if op in ("SetRaw", "SetChunked"):
-        mm = re.match(r"<<([\d,]*)>>(?:,(TRUE|FALSE))?", a)
+        mm = re.match(r"<<([\d,]*)>>(?:,(\d))?", a)
         v = tuple(int(x) for x in mm.group(1).split(",") if x != "")
-        return op, (v, mm.group(2) == "TRUE")
-    if op == "Reload":
-        return op, (a == "TRUE",)
+        return op, (v, int(mm.group(2) or 0))
+    if op in ("Reload", "ReadIdF"):
+        return op, (int(a),)
     return op, ()
 
 
@@ -291,10 +301,12 @@ def op_str(op, args):
         return f"set{args[0]}={args[1]}"
     if op in ("SetRaw", "SetChunked"):
         v = "".join(str(x) for x in args[0])
-        return ("chunked" if op == "SetChunked" else "setrawsha" if args[1] else "setraw") + f"({v})"
+        return ("chunked" if op == "SetChunked" else "setraw" + (ALGO_OF[args[1]] if args[1] else "")) + f"({v})"
     if op == "Reload":
-        return "reloadsha" if args[0] else "reload"
-    return {"AsRaw": "raw", "ReadId": "id", "ReadId256": "id256", "Copy": "copy", "Check": "check"}[op]
+        return "reload" + (ALGO_OF[args[0]] if args[0] else "")
+    if op == "ReadIdF":
+        return f"get_id({ALGO_OF[args[0]]})"
+    return {"AsRaw": "raw", "ReadId": "id", "Copy": "copy", "Check": "check"}[op]
 
 
 def judge(conc, kind_of, value, expect_v):
@@ -302,30 +314,34 @@ def judge(conc, kind_of, value, expect_v):
     b = conc.bytes[expect_v]
     if kind_of == "bytes":
         return None if value == b else "bytes-not-serialisation-of-fields"
+    names = (L.H("sha1", conc.kind, b), L.H("sha256", conc.kind, b))
     if kind_of == "sha1":
-        ok = value in (L.H("sha1", conc.kind, b), L.H(conc.algo, conc.kind, b))
-        return None if ok else "id-not-hash-of-content:sha1"
-    if kind_of == "sha256":
-        return None if value == L.H("sha256", conc.kind, b) else "id-not-hash-of-content:sha256"
+        # .id / sha() without a format: the SHA-1 of the content, or -- for an object that carries the
+        # name a sha256 store gave it -- the SHA-256 of the content
+        return None if value in names else "id-not-hash-of-content"
+    if kind_of.startswith("name:"):
+        # explicit request: the hash of the content IN THE REQUESTED FORMAT, whatever is cached
+        algo = kind_of[5:]
+        return None if value == L.H(algo, conc.kind, b) else f"get_id({algo})-not-{algo}-hash-of-content"
     if kind_of == "copy":
         if value[0] != b:
             return "bytes-not-serialisation-of-fields"
-        if value[1] not in (L.H("sha1", conc.kind, b), L.H(conc.algo, conc.kind, b)):
+        if value[1] not in names:
             return "copy-id-not-hash-of-content"
     return None
 
 
-EPILOGUE = [("ReadId", ()), ("ReadId256", ()), ("AsRaw", ())]
+EPILOGUE = [("ReadIdF", (1,)), ("ReadId", ()), ("ReadIdF", (2,)), ("AsRaw", ())]
 
 
-def execute(conc, origin, v0, ops, flavour=0, states=None, epilogue=True):
+def execute(conc, origin, v0, ops, flavour=0, states=None, epilogue=True, ofmt=0):
     """Run ops on a fresh object.  Returns (failures, drifts, events).  A failure is
     (step index, clause, detail); the oracle is the tracked valuation (what the setters were
     called with), independent of the model.  states (optional): expected abstract state after each
     op, compared with the projection of the real object (mismatch = drift)."""
     fails, drifts, events = [], [], []
     try:
-        ob = Obj(conc, origin, v0, flavour)
+        ob = Obj(conc, origin, v0, flavour, ofmt)
     except Exception as e:  # noqa: BLE001
         if not impl_exc(e):
             raise
@@ -345,15 +361,14 @@ def execute(conc, origin, v0, ops, flavour=0, states=None, epilogue=True):
         if kind_of == "copy":
             # a copy stands for the valuation of its bytes only if its name is the hash of these bytes
             kind_of, value = "bytes", (value[0] if cl != "copy-id-not-hash-of-content" else b"<copy with wrong name>")
+        rfmt = 0
         if kind_of == "bytes":
             ret = conc.by_bytes.get(value, "other")
-        elif kind_of == "sha1":
-            ret = conc.by_sha1.get(value.decode("ascii", "replace"), "other")
-        elif kind_of == "sha256":
-            ret = next((v for v, b in conc.bytes.items() if L.H("sha256", conc.kind, b) == value), "other")
+        elif kind_of == "sha1" or kind_of.startswith("name:"):
+            ret, rfmt = conc.by_name.get(value.decode("ascii", "replace"), ("other", 0))
         else:
             ret = ob.tracked
-        events.append({"op": op, "args": args, "ret": ret, "st": pr})
+        events.append({"op": op, "args": args, "ret": ret, "rfmt": rfmt, "st": pr})
         if states is not None and i < len(states):
             d = state_diff(states[i], pr, conc)
             if d:
@@ -372,20 +387,20 @@ def state_diff(model, real, conc):
     if mt != real["text"]:
         return f"text model={mt} real={real['text']}"
     mk = str(model["sha"]["k"])
-    ms = (mk, tuple(model["sha"]["v"]) if mk != "none" else None)
+    ms = (mk, tuple(model["sha"]["v"]) if mk != "none" else None, int(model["sha"]["fmt"]))
     if ms != tuple(real["sha"]):
         return f"sha model={ms} real={real['sha']}"
     return None
 
 
-def minimise(conc, origin, v0, ops, clause, flavour):
+def minimise(conc, origin, v0, ops, clause, flavour, ofmt=0):
     """Greedy removal of operations while the same clause still fails."""
     def failing(o, ops_):
-        f, _, _ = execute(conc, o, v0, ops_, flavour, epilogue=False)
+        f, _, _ = execute(conc, o, v0, ops_, flavour, epilogue=False, ofmt=ofmt)
         return any(c == clause for (_, c, _) in f)
     ops = list(ops)
     # cut after the first failing step (a failing read of the epilogue becomes an explicit operation)
-    f, _, _ = execute(conc, origin, v0, ops, flavour)
+    f, _, _ = execute(conc, origin, v0, ops, flavour, ofmt=ofmt)
     first = min((i for (i, c, _) in f if c == clause), default=len(ops))
     ops = (ops + EPILOGUE)[:first + 1]
     changed = True
@@ -401,16 +416,86 @@ def minimise(conc, origin, v0, ops, clause, flavour):
     return ops
 
 
+def scenario(origin, ofmt, v0, ops):
+    return f"{origin}{ALGO_OF[ofmt] if ofmt else ''}({''.join(str(x) for x in v0)});" + ";".join(op_str(o, a) for (o, a) in ops)
+
+
 def replay_one(job, table, pools):
     """Re-execute one recorded behaviour step by step (./check C01 --replay)."""
     r = job["replay"]
     conc = Conc(r["conc"], table, pools)
     ops = [(o, tuple(tuple(x) if isinstance(x, list) else x for x in a)) for (o, a) in r["ops"]]
-    fails, _, events = execute(conc, r["origin"], tuple(r["v0"]), ops, r["flavour"], epilogue=False)
+    fails, _, events = execute(conc, r["origin"], tuple(r["v0"]), ops, r["flavour"], epilogue=False, ofmt=r.get("ofmt", 0))
     steps = []
     for (o, a), e in zip(ops, events):
         steps.append({"op": op_str(o, a), "returned_value_stands_for": e["ret"], "projection": e["st"]})
     return {"n": {}, "fail": [{"step": i, "clause": c, "detail": d} for (i, c, d) in fails], "steps": steps, "drift": [], "samples": [], "traces": []}
+
+
+def run_store(job, table, pools):
+    """Store-level form of Reload(w); ReadIdF(F): an object is added to a DiskObjectStore of format A,
+    looked up there by its A-name (so it carries that trusted name, unedited), asked for its name in
+    both formats, added to a store of format B and looked up there by its B-name -- all four (A, B)."""
+    import os
+    import shutil
+    import tempfile
+    from dulwich import objects as O
+    from dulwich.object_store import DiskObjectStore
+    from dulwich.object_format import SHA1, SHA256
+    FM = {"sha1": SHA1, "sha256": SHA256}
+    out = {"n": {"paths": 0, "steps": 0, "concs": 0, "store_objects": 0}, "fail": [], "drift": [], "samples": [], "traces": [], "store_fail": []}
+    only = job.get("store_only")
+    root = tempfile.mkdtemp(prefix="c01-store-", dir=job.get("tmp"))
+    try:
+        for A in L.ALGOS:
+            cases = [("blob", k) for k in BLOB_KEYS] + [("tree", "")]
+            for kind in ("commit", "tag", "tree"):
+                keys = sorted(key for (k, key) in table if k == kind and key)
+                cases += [(kind, keys[0]), (kind, keys[len(keys) // 2]), (kind, keys[-1])]
+            for B in L.ALGOS:
+                if only and [A, B] != only[:2]:
+                    continue
+                sa = DiskObjectStore.init(os.path.join(root, f"{A}-{B}-src"), object_format=FM[A])
+                sb = DiskObjectStore.init(os.path.join(root, f"{A}-{B}-dst"), object_format=FM[B])
+                for kind, key in cases:
+                    b = L.render(table[(kind, key)], A)
+                    names = {a: L.H(a, kind, b) for a in L.ALGOS}
+                    out["n"]["store_objects"] += 1
+
+                    def fail(clause, note=""):
+                        out["store_fail"].append({"clause": f"{A}->{B}:{clause}", "kind": kind, "key": key, "note": str(note)[:300], "pair": [A, B]})
+                    try:
+                        sa.add_object(O.ShaFile.from_raw_string(L.TYPE_NUM[kind], b, object_format=FM[A]))
+                        try:
+                            loaded = sa[names[A]]
+                        except KeyError:
+                            fail("not-found-under-own-name-in-source-store")
+                            continue
+                        if loaded.as_raw_string() != b:
+                            fail("content-changed-through-source-store")
+                        for order in ((B, A), (A, B)):
+                            for a in order:
+                                if loaded.get_id(FM[a]) != names[a]:
+                                    fail(f"get_id({a})-not-{a}-hash-of-content", loaded.get_id(FM[a]))
+                                if loaded.sha(FM[a]).hexdigest().encode() != names[a]:
+                                    fail(f"sha({a})-not-{a}-hash-of-content", loaded.sha(FM[a]).hexdigest())
+                        if kind == "tree" and key and A != B:
+                            continue                 # the bytes of a non-empty tree only make sense in its own format
+                        sb.add_object(loaded)
+                        if names[B] not in sb:
+                            fail(f"not-found-under-{B}-name-in-destination-store")
+                            continue
+                        if sb[names[B]].as_raw_string() != b:
+                            fail("content-changed-through-destination-store")
+                        if A != B and os.path.exists(O.hex_to_filename(sb.path, names[A])):
+                            fail(f"filed-under-{A}-name-in-{B}-store")
+                    except Exception as e:  # noqa: BLE001
+                        if not impl_exc(e):
+                            raise
+                        fail(f"exception:{type(e).__name__}", e)
+    finally:
+        shutil.rmtree(root, ignore_errors=True)
+    return out
 
 
 def run_job(job):
@@ -418,6 +503,8 @@ def run_job(job):
     pools = L.load_pools(job["pools"])
     if job.get("replay"):
         return replay_one(job, table, pools)
+    if job.get("store"):
+        return run_store(job, table, pools)
     out = {"n": {"paths": 0, "steps": 0, "concs": 0}, "fail": [], "drift": [], "samples": [], "traces": []}
     import json
     with open(job["paths"]) as f:
@@ -429,30 +516,31 @@ def run_job(job):
         plan = plans["generic"]
         if conc.kind == "blob":
             # the model follows the shape of the code: does Blob.chunked drop the cached sha?
-            pb = Obj(conc, "rawsha", (0,))
-            pb.do("SetChunked", ((1,), False))
+            pb = Obj(conc, "rawsha", (0,), 0, 1)
+            pb.do("SetChunked", ((1,), 0))
             plan = plans["blob"] if pb.o._sha is None else plans["blob_keeps_sha"]
             out["blob_model"] = "ChunkedResetsSha" if pb.o._sha is None else "ChunkedKeepsSha (defect model)"
         nodes = plan["nodes"]
         for pi, (init, steps) in enumerate(plan["paths"]):
             st0 = nodes[str(init)]
             origin = str(st0["last"]["op"])
+            ofmt = int(st0["last"]["f"])
             v0 = tuple(st0["fields"])
             ops = [parse_label(lab) for (lab, _) in steps]
             states = [nodes[str(dst)] for (_, dst) in steps]
             flavour = pi + len(conc.name)
-            fails, drifts, events = execute(conc, origin, v0, ops, flavour, states)
+            fails, drifts, events = execute(conc, origin, v0, ops, flavour, states, ofmt=ofmt)
             out["n"]["paths"] += 1
             out["n"]["steps"] += len(events)
             explained = bool(fails)
             for (i, clause, detail) in fails:
-                mops = minimise(conc, origin, v0, ops, clause, flavour) if not clause.startswith("exception") or True else ops
-                scen = f"{origin}({''.join(str(x) for x in v0)});" + ";".join(op_str(o, a) for (o, a) in mops)
+                mops = minimise(conc, origin, v0, ops, clause, flavour, ofmt)
+                scen = scenario(origin, ofmt, v0, mops)
                 sig = (CLS[conc.kind], clause, scen)
                 if sig in seen_sig:
                     continue
                 seen_sig.add(sig)
-                out["fail"].append({"cls": CLS[conc.kind], "clause": clause, "scenario": scen, "conc": spec, "origin": origin,
+                out["fail"].append({"cls": CLS[conc.kind], "clause": clause, "scenario": scen, "conc": spec, "origin": origin, "ofmt": ofmt,
                                     "v0": list(v0), "ops": [[o, list(a) if not (a and isinstance(a[0], tuple)) else [list(a[0])] + list(a[1:])] for (o, a) in mops],
                                     "flavour": flavour, "detail": detail, "mode": job["mode"]})
             if drifts and not explained:
@@ -465,7 +553,8 @@ def run_job(job):
         # random long histories for trace validation (code -> spec)
         rng = random.Random(f"{job['seed']}/{conc.name}")
         for t in range(job.get("histories", 0)):
-            origin = rng.choice(["new", "raw", "rawsha"])
+            origin = rng.choice(["new", "raw", "rawsha", "rawsha"])
+            ofmt = rng.choice([1, 2]) if origin == "rawsha" else 0
             vals = sorted(conc.bytes)
             v0 = rng.choice(vals)
             ops = []
@@ -473,24 +562,24 @@ def run_job(job):
                 r = rng.random()
                 if conc.kind == "blob":
                     if r < 0.3:
-                        ops.append(("SetChunked", (rng.choice(vals), False)))
+                        ops.append(("SetChunked", (rng.choice(vals), 0)))
                     elif r < 0.45:
-                        ops.append(("SetRaw", (rng.choice(vals), rng.random() < 0.4)))
+                        ops.append(("SetRaw", (rng.choice(vals), rng.choice([0, 0, 1, 2]))))
                 elif r < 0.35:
                     ops.append(("Set", (rng.randint(1, conc.nf), rng.randint(0, 1))))
                 elif r < 0.45:
-                    ops.append(("SetRaw", (rng.choice(vals), rng.random() < 0.4)))
+                    ops.append(("SetRaw", (rng.choice(vals), rng.choice([0, 0, 1, 2]))))
                 if len(ops) and r < 0.45:
                     continue
-                ops.append(rng.choice([("AsRaw", ()), ("ReadId", ()), ("ReadId", ()), ("ReadId256", ()), ("Copy", ()),
-                                       ("Check", ()), ("Reload", (True,)), ("Reload", (False,))]))
+                ops.append(rng.choice([("AsRaw", ()), ("ReadId", ()), ("ReadIdF", (1,)), ("ReadIdF", (1,)), ("ReadIdF", (2,)), ("Copy", ()),
+                                       ("Check", ()), ("Reload", (0,)), ("Reload", (1,)), ("Reload", (2,))]))
             flav = rng.randrange(1000)
-            fails, _, events = execute(conc, origin, v0, ops, flav)
+            fails, _, events = execute(conc, origin, v0, ops, flav, ofmt=ofmt)
             scen = None
             if fails:
-                mops = minimise(conc, origin, v0, ops, fails[0][1], flav)
-                scen = f"{origin}({''.join(str(x) for x in v0)});" + ";".join(op_str(o, a) for (o, a) in mops)
-            out["traces"].append({"conc": conc.name, "kind": conc.kind, "algo": conc.algo, "origin": origin, "v0": list(v0),
+                mops = minimise(conc, origin, v0, ops, fails[0][1], flav, ofmt)
+                scen = scenario(origin, ofmt, v0, mops)
+            out["traces"].append({"conc": conc.name, "kind": conc.kind, "algo": conc.algo, "origin": origin, "ofmt": ofmt, "v0": list(v0),
                                   "ev": events, "fails": [(i, c) for (i, c, _) in fails], "scenario": scen, "flavour": flav,
                                   "ops": [[o, list(a) if not (a and isinstance(a[0], tuple)) else [list(a[0])] + list(a[1:])] for (o, a) in ops]})
     return out
